@@ -246,13 +246,27 @@ class Conf:
                 if p is None:
                     continue
                 for alt in _top_alts(p):
-                    if "\\d" in alt and re.fullmatch(r"(?:[A-Za-z_]|\\d)+", alt):
+                    if "\\d" not in alt:
+                        continue
+                    if re.fullmatch(r"(?:[A-Za-z_]|\\d)+", alt):
                         n = alt.count("\\d")
                         for num in _digit_menu(n):
                             it = iter(num)
                             s = re.sub(r"\\d", lambda m: next(it), alt)
                             if s not in out:
                                 out.append(s)
+                    else:
+                        # quantified digit patterns (v\d\d\d\d?, v\d{3,4} ...): literal prefix + digit runs that the pattern accepts
+                        prefix = re.match(r"[A-Za-z_]*", alt).group(0)
+                        try:
+                            rx = re.compile(alt)
+                        except re.error:
+                            continue
+                        for n in range(1, 7):
+                            for num in _digit_menu(n):
+                                s = prefix + num
+                                if rx.fullmatch(s) and s not in out:
+                                    out.append(s)
         return out
 
     def accepted(self, typ: str, i: int, pool) -> list[str]:
